@@ -32,6 +32,10 @@ func H_LexSegment() {
 		pk := l.Peek()
 		t := l.Next()
 		r := ref.Next()
+		rtObserveInt("typ", int(t.Typ))
+		if t.Typ != lex.TErr {
+			rtObserve("val", t.Val)
+		}
 		rtAssert("peek=next", pk.Typ == t.Typ && (t.Typ == lex.TErr || pk.Val == t.Val))
 		rtAssert("peek-no-effect", t.Typ == r.Typ && (t.Typ == lex.TErr || t.Val == r.Val))
 		if t.Typ == lex.TEOF || t.Typ == lex.TErr {
